@@ -310,6 +310,343 @@ def _inline_lock_decorators(tree):
     ast.fix_missing_locations(tree)
 
 
+def _normalise_acquire_release(tree):
+    """``L.acquire(); try: BODY finally: L.release()`` is ``with L: BODY``."""
+    def is_call(st, name):
+        return isinstance(st, ast.Expr) and isinstance(
+            st.value, ast.Call) and isinstance(
+                st.value.func, ast.Attribute) and \
+            st.value.func.attr == name and not st.value.args and \
+            not st.value.keywords
+
+    def fix(stmts):
+        out = []
+        i = 0
+        while i < len(stmts):
+            st = stmts[i]
+            nx = stmts[i + 1] if i + 1 < len(stmts) else None
+            if is_call(st, 'acquire') and isinstance(nx, ast.Try) and \
+                    not nx.handlers and not nx.orelse and \
+                    len(nx.finalbody) == 1 and is_call(
+                        nx.finalbody[0], 'release') and ast.dump(
+                        st.value.func.value) == ast.dump(
+                        nx.finalbody[0].value.func.value):
+                out.append(ast.copy_location(ast.With(
+                    items=[ast.withitem(context_expr=st.value.func.value,
+                                        optional_vars=None)],
+                    body=fix(nx.body)), st))
+                i += 2
+                continue
+            for fld in ('body', 'orelse', 'finalbody'):
+                v = getattr(st, fld, None)
+                if isinstance(v, list) and v and isinstance(v[0], ast.stmt):
+                    setattr(st, fld, fix(v))
+            if isinstance(st, ast.Try):
+                for h in st.handlers:
+                    h.body = fix(h.body)
+            out.append(st)
+            i += 1
+        return out
+    for node in ast.walk(tree):
+        if isinstance(node, ast.FunctionDef):
+            node.body = fix(node.body)
+    ast.fix_missing_locations(tree)
+
+
+def _desugar_match(tree):
+    """``match``/``case`` with class patterns without sub-patterns, literal
+    patterns, or-patterns of those, ``as`` captures and the wildcard is the
+    isinstance/==/is chain it abbreviates."""
+    counter = [0]
+
+    def test_of(pat, subj):
+        """(test expression or None for the wildcard, bindings) or raises
+        ValueError when the pattern is outside the supported subset."""
+        if isinstance(pat, ast.MatchAs):
+            if pat.pattern is None:
+                return None, ([pat.name] if pat.name else [])
+            t, b = test_of(pat.pattern, subj)
+            return t, b + ([pat.name] if pat.name else [])
+        if isinstance(pat, ast.MatchClass):
+            if pat.patterns or pat.kwd_patterns:
+                raise ValueError
+            return ast.Call(func=ast.Name(id='isinstance', ctx=ast.Load()),
+                            args=[subj(), pat.cls], keywords=[]), []
+        if isinstance(pat, ast.MatchSingleton):
+            return ast.Compare(left=subj(), ops=[ast.Is()],
+                               comparators=[ast.Constant(
+                                   value=pat.value)]), []
+        if isinstance(pat, ast.MatchValue):
+            return ast.Compare(left=subj(), ops=[ast.Eq()],
+                               comparators=[pat.value]), []
+        if isinstance(pat, ast.MatchOr):
+            parts = [test_of(p_, subj) for p_ in pat.patterns]
+            if any(b for _, b in parts) or any(t is None for t, _ in parts):
+                raise ValueError
+            if all(isinstance(p_, ast.MatchClass) for p_ in pat.patterns):
+                return ast.Call(
+                    func=ast.Name(id='isinstance', ctx=ast.Load()),
+                    args=[subj(), ast.Tuple(
+                        elts=[p_.cls for p_ in pat.patterns],
+                        ctx=ast.Load())], keywords=[]), []
+            return ast.BoolOp(op=ast.Or(),
+                              values=[t for t, _ in parts]), []
+        raise ValueError
+
+    class T(ast.NodeTransformer):
+        def visit_Match(self, n):
+            self.generic_visit(n)
+            pre = []
+            if isinstance(n.subject, ast.Name):
+                sname = n.subject.id
+            else:
+                counter[0] += 1
+                sname = '_match%d' % counter[0]
+                pre.append(ast.Assign(
+                    targets=[ast.Name(id=sname, ctx=ast.Store())],
+                    value=n.subject, lineno=n.lineno))
+
+            def subj():
+                return ast.Name(id=sname, ctx=ast.Load())
+            try:
+                arms = []
+                for c in n.cases:
+                    t, binds = test_of(c.pattern, subj)
+                    body = [ast.Assign(
+                        targets=[ast.Name(id=b, ctx=ast.Store())],
+                        value=subj(), lineno=n.lineno)
+                        for b in binds] + c.body
+                    if c.guard is not None:
+                        if binds:
+                            raise ValueError
+                        t = c.guard if t is None else ast.BoolOp(
+                            op=ast.And(), values=[t, c.guard])
+                    arms.append((t, body))
+            except ValueError:
+                return n
+            node = None
+            for t, body in reversed(arms):
+                if t is None:
+                    node = body
+                else:
+                    node = [ast.If(test=t, body=body,
+                                   orelse=node or [])]
+            out = pre + (node or [ast.Pass()])
+            for x in out:
+                ast.copy_location(x, n)
+            return out
+    T().visit(tree)
+    ast.fix_missing_locations(tree)
+
+
+def _classmethods_to_static(modules):
+    """A ``@classmethod`` of a class that has no subclass in the package is
+    a static method whose ``cls`` is the class itself."""
+    bases = set()
+    for tree in modules.values():
+        for c in ast.walk(tree):
+            if isinstance(c, ast.ClassDef):
+                for b in c.bases:
+                    bases.add(ast.unparse(b).split('.')[-1])
+    for tree in modules.values():
+        changed = False
+        for c in tree.body:
+            if not isinstance(c, ast.ClassDef) or c.name in bases:
+                continue
+            for m in c.body:
+                if not isinstance(m, ast.FunctionDef) or not m.args.args:
+                    continue
+                decs = [d for d in m.decorator_list if isinstance(
+                    d, ast.Name) and d.id == 'classmethod']
+                if not decs:
+                    continue
+                cname = m.args.args[0].arg
+                if any(isinstance(x, ast.Name) and x.id == cname and
+                       isinstance(x.ctx, (ast.Store, ast.Del))
+                       for x in ast.walk(m)):
+                    continue
+                for x in ast.walk(m):
+                    if isinstance(x, ast.Name) and x.id == cname:
+                        x.id = c.name
+                m.args.args = m.args.args[1:]
+                decs[0].id = 'staticmethod'
+                changed = True
+        if changed:
+            ast.fix_missing_locations(tree)
+
+
+def _normalise_literal_membership(tree):
+    """``x in (A, B)`` with a short display of names/constants is
+    ``x == A or x == B`` (``not in``: ``x != A and x != B``); x is a name or
+    an attribute chain, so evaluating it once per comparison changes
+    nothing."""
+    def pure(e):
+        while isinstance(e, ast.Attribute):
+            e = e.value
+        return isinstance(e, ast.Name)
+
+    def atom(e):
+        return isinstance(e, ast.Constant) or pure(e)
+
+    class T(ast.NodeTransformer):
+        def visit_Compare(self, n):
+            self.generic_visit(n)
+            if len(n.ops) == 1 and isinstance(n.ops[0], (ast.In, ast.NotIn)) \
+                    and isinstance(n.comparators[0], (ast.Tuple, ast.List,
+                                                      ast.Set)) and \
+                    1 <= len(n.comparators[0].elts) <= 6 and pure(n.left) \
+                    and all(atom(e) for e in n.comparators[0].elts):
+                neg = isinstance(n.ops[0], ast.NotIn)
+                parts = [ast.Compare(
+                    left=copy.deepcopy(n.left),
+                    ops=[ast.NotEq() if neg else ast.Eq()],
+                    comparators=[e]) for e in n.comparators[0].elts]
+                if len(parts) == 1:
+                    return ast.copy_location(parts[0], n)
+                return ast.copy_location(ast.BoolOp(
+                    op=ast.And() if neg else ast.Or(), values=parts), n)
+            return n
+    for f in ast.walk(tree):
+        if isinstance(f, ast.FunctionDef):
+            f.body = [T().visit(b) for b in f.body]
+    ast.fix_missing_locations(tree)
+
+
+def _numbered_body(fn):
+    """Dump of a function body (docstring dropped) with its parameters
+    renamed p0, p1, ... in order."""
+    ren = {a.arg: 'p%d' % i for i, a in enumerate(fn.args.args)}
+    body = [b for b in fn.body if not (
+        isinstance(b, ast.Expr) and isinstance(b.value, ast.Constant) and
+        isinstance(b.value.value, str))]
+    mod = copy.deepcopy(ast.Module(body=body, type_ignores=[]))
+    for x in ast.walk(mod):
+        if isinstance(x, ast.Name) and x.id in ren:
+            x.id = ren[x.id]
+    return ast.dump(mod)
+
+
+def _normalise_kwonly(tree):
+    """Keyword-only parameters (``def f(a, *, b, c=None)``) are listed as
+    ordinary trailing parameters: every call passes them by name, so the
+    binding is the same."""
+    for f in ast.walk(tree):
+        if not isinstance(f, ast.FunctionDef):
+            continue
+        a = f.args
+        if not a.kwonlyargs or a.vararg is not None:
+            continue
+        dfl = list(a.kw_defaults)
+        # positional signature rule: once a default appears, all that
+        # follow need one
+        have = bool(a.defaults)
+        ok = True
+        for d in dfl:
+            if d is None and have:
+                ok = False
+            if d is not None:
+                have = True
+        if not ok:
+            continue
+        a.args = a.args + a.kwonlyargs
+        a.defaults = a.defaults + [d for d in dfl if d is not None]
+        a.kwonlyargs = []
+        a.kw_defaults = []
+
+
+def _normalise_filter_loop(tree):
+    """``t = [e for e in IT if C]; for v in t: BODY`` with t used nowhere
+    else and C a pure class/attribute test is ``for v in IT: if C: BODY``
+    (the filter does not depend on what BODY does)."""
+    def pure_test(c):
+        for x in ast.walk(c):
+            if isinstance(x, ast.Call) and not (
+                    isinstance(x.func, ast.Name) and
+                    x.func.id == 'isinstance'):
+                return False
+        return True
+
+    def fix(stmts, fn):
+        out = []
+        i = 0
+        while i < len(stmts):
+            st = stmts[i]
+            nx = stmts[i + 1] if i + 1 < len(stmts) else None
+            if isinstance(st, ast.Assign) and len(st.targets) == 1 and \
+                    isinstance(st.targets[0], ast.Name) and isinstance(
+                        st.value, ast.ListComp) and \
+                    len(st.value.generators) == 1 and isinstance(
+                        nx, ast.For) and isinstance(nx.iter, ast.Name) and \
+                    nx.iter.id == st.targets[0].id and not nx.orelse:
+                g = st.value.generators[0]
+                t = st.targets[0].id
+                uses = sum(1 for x in ast.walk(fn) if isinstance(
+                    x, ast.Name) and x.id == t)
+                if uses == 2 and isinstance(g.target, ast.Name) and \
+                        isinstance(st.value.elt, ast.Name) and \
+                        st.value.elt.id == g.target.id and \
+                        isinstance(nx.target, ast.Name) and \
+                        not g.is_async and all(pure_test(c)
+                                               for c in g.ifs):
+                    ren = {g.target.id: nx.target.id}
+                    conds = []
+                    for c in g.ifs:
+                        c = copy.deepcopy(c)
+                        for x in ast.walk(c):
+                            if isinstance(x, ast.Name) and x.id in ren:
+                                x.id = ren[x.id]
+                        conds.append(c)
+                    body = fix(nx.body, fn)
+                    if conds:
+                        test = conds[0] if len(conds) == 1 else ast.BoolOp(
+                            op=ast.And(), values=conds)
+                        body = [ast.If(test=test, body=body, orelse=[])]
+                    out.append(ast.copy_location(ast.For(
+                        target=nx.target, iter=g.iter, body=body,
+                        orelse=[]), nx))
+                    i += 2
+                    continue
+            if isinstance(st, ast.For) and isinstance(
+                    st.iter, ast.ListComp) and not st.orelse and \
+                    len(st.iter.generators) == 1:
+                # the same with the comprehension written in place
+                g = st.iter.generators[0]
+                if isinstance(g.target, ast.Name) and isinstance(
+                        st.iter.elt, ast.Name) and \
+                        st.iter.elt.id == g.target.id and isinstance(
+                            st.target, ast.Name) and not g.is_async and \
+                        all(pure_test(c) for c in g.ifs):
+                    ren = {g.target.id: st.target.id}
+                    conds = []
+                    for c in g.ifs:
+                        c = copy.deepcopy(c)
+                        for x in ast.walk(c):
+                            if isinstance(x, ast.Name) and x.id in ren:
+                                x.id = ren[x.id]
+                        conds.append(c)
+                    body = st.body
+                    if conds:
+                        test = conds[0] if len(conds) == 1 else ast.BoolOp(
+                            op=ast.And(), values=conds)
+                        body = [ast.If(test=test, body=body, orelse=[])]
+                    st.iter = g.iter
+                    st.body = body
+            for fld in ('body', 'orelse', 'finalbody'):
+                v = getattr(st, fld, None)
+                if isinstance(v, list) and v and isinstance(v[0], ast.stmt):
+                    setattr(st, fld, fix(v, fn))
+            if isinstance(st, ast.Try):
+                for h in st.handlers:
+                    h.body = fix(h.body, fn)
+            out.append(st)
+            i += 1
+        return out
+    for node in ast.walk(tree):
+        if isinstance(node, ast.FunctionDef):
+            node.body = fix(node.body, node)
+    ast.fix_missing_locations(tree)
+
+
 def _normalise_sentinel_iter(tree):
     """``for x in iter(functools.partial(f, a), s): body`` (or
     ``iter(lambda: E, s)``) is ``while True: x = f(a); if x == s: break;
@@ -650,6 +987,15 @@ def _fold_module_constants(tree):
         if isinstance(st, ast.Assign) and len(st.targets) == 1 and \
                 isinstance(st.targets[0], ast.Name):
             binds.setdefault(st.targets[0].id, []).append(st.value)
+    for k, v in list(binds.items()):
+        # ``X = SomeEnum.MEMBER.name`` is the literal 'MEMBER'
+        if len(v) == 1 and isinstance(v[0], ast.Attribute) and \
+                v[0].attr == 'name' and isinstance(
+                    v[0].value, ast.Attribute) and \
+                v[0].value.attr.isupper() and isinstance(
+                    v[0].value.value, ast.Name) and \
+                v[0].value.value.id[:1].isupper():
+            binds[k] = [ast.Constant(value=v[0].value.attr)]
     consts = {k: v[0] for k, v in binds.items()
               if len(v) == 1 and isinstance(v[0], ast.Constant) and
               isinstance(v[0].value, (str, int, float)) and
@@ -769,7 +1115,9 @@ class Program:
             self.sources[mod] = src
             self._relfile = getattr(self, '_relfile', {})
             self._relfile[mod] = PKG + '/' + fn
-            self._load_module(mod, tree, PKG + '/' + fn)
+        _classmethods_to_static(self.modules)
+        for mod, tree in self.modules.items():
+            self._load_module(mod, tree, self._relfile[mod])
         self.excluded.append('samples/')
         if anchors == 'default':
             anchors = os.path.join(os.path.dirname(os.path.dirname(
@@ -816,9 +1164,14 @@ class Program:
         imps = {}
         globs = {}
         _inline_lock_decorators(tree)
+        _normalise_kwonly(tree)
+        _desugar_match(tree)
         _inline_simple_properties(tree)
         _hoist_walrus(tree)
         _normalise_sentinel_iter(tree)
+        _normalise_filter_loop(tree)
+        _normalise_literal_membership(tree)
+        _normalise_acquire_release(tree)
         _normalise_temporaries(tree)
         _inline_attr_aliases(tree)
         _fold_module_constants(tree)
@@ -1074,6 +1427,21 @@ class Program:
                     sc_x.append(x)
             if len(sc_x) == 1:
                 adopt(m, sc_x[0])
+                continue
+            # ... or a small one whose body is literally the same once the
+            # parameters are numbered (``Cache.key(op)`` ->
+            # ``Record.key(self)``)
+            if m not in self._canon_bodies(canon):
+                continue
+            same = [x for x in extra if x not in used_x and x in self.funcs
+                    and _numbered_body(self.funcs[x].node) ==
+                    self._canon_bodies(canon)[m]]
+            if len(same) == 1:
+                adopt(m, same[0])
+
+    def _canon_bodies(self, canon):
+        return {m: fp['body'] for m, fp in canon.items()
+                if isinstance(fp, dict) and fp.get('body')}
 
     def parent(self, node):
         return self._parents.get(id(node))
@@ -1175,6 +1543,14 @@ class Program:
             return None
         if isinstance(e, ast.Constant):
             return e
+        if isinstance(e, ast.Attribute) and e.attr == 'name' and \
+                isinstance(e.value, ast.Attribute) and \
+                e.value.attr.isupper() and isinstance(
+                    e.value.value, ast.Name) and \
+                e.value.value.id[:1].isupper() and \
+                e.value.value.id not in ('self', 'cls'):
+            # ``SomeEnum.MEMBER.name`` is the literal 'MEMBER'
+            return ast.Constant(value=e.value.attr)
         if isinstance(e, ast.Name):
             if f is not None and self.is_local(f, e.id) and \
                     e.id not in f.all_param_names():
@@ -1640,6 +2016,11 @@ class Program:
                     continue
                 else:
                     ext.append('method:%s.%s' % (rt[4:], fn.attr))
+            if any(isinstance(o, Func) for o in out):
+                # the receiver's static type is a union (elements of
+                # .suboperations): classes that lack the method are excluded
+                # by the isinstance test that precedes such a call
+                out = [o for o in out if isinstance(o, Func)]
             if out or ext:
                 return out + ext
             # unknown receiver: unique method name among package classes,
@@ -1802,9 +2183,13 @@ def fingerprint(prog, f):
         if isinstance(n, ast.stmt):
             k = type(n).__name__
             kinds[k] = kinds.get(k, 0) + 1
-    return {'cls': f.cls, 'static': f.is_static, 'nparams': len(f.params),
-            'ext': sorted(ext), 'intl': sorted(intl),
-            'attrs': sorted(attrs), 'kinds': kinds}
+    fp = {'cls': f.cls, 'static': f.is_static, 'nparams': len(f.params),
+          'ext': sorted(ext), 'intl': sorted(intl),
+          'attrs': sorted(attrs), 'kinds': kinds}
+    if sum(kinds.values()) <= 8 and (ext or intl):
+        # small functions are also known by their literal body
+        fp['body'] = _numbered_body(f.node)
+    return fp
 
 
 def _jac(a, b):
